@@ -76,6 +76,8 @@ func (e *Engine) VerifyFn(fc *FnContract) {
 		fr.Params = append(fr.Params, e.symbolicInput(st, p.Type(), "in$"+nm))
 	}
 	V.Entry = fr.Params
+	// the nil reference / nil region is never an allocated object
+	st.Assume(e.C.Not(e.C.Select(e.allocMap(st), e.i64(0))))
 	env := clauseEnv{params: fr.Params}
 	for _, rq := range fc.Requires {
 		st.Assume(e.evalClause(st, fr, rq, env).(*smt.Term))
@@ -100,6 +102,11 @@ func (e *Engine) atReturn(st *State, fr *Frame, fc *FnContract, res []Value) {
 	env := clauseEnv{params: V.Entry, results: res}
 	st.Trace = append(st.Trace, "return")
 	for _, en := range fc.Ensures {
+		if HasTag(en.C.Tags, "assume") {
+			// clause marked {assume}: used by callers, not proved against the body
+			e.UsedAssumed[fc.Key+" ["+en.C.Label+"] (assumed clause)"] = true
+			continue
+		}
 		g := e.evalClause(st, fr, en, env).(*smt.Term)
 		e.obligeNamed(st, fr, "ensures", en.C.Label, g, "", en.C.Tags, "")
 	}
